@@ -106,6 +106,16 @@ def kf_hash_read_names(inputs):
     return True
 
 
+def kf_hash_chromosome_name(inputs):
+    """known-finding class: scenario C03_hash_chromosome_name fails, and what it reports is that the run on the chromosome named '#1' has NO
+    model at all in transcript_models.gtf while the same reads on 'c1' have some (every record of that chromosome starts with '#')"""
+    import re
+    if not isinstance(inputs, dict) or inputs.get("scenario") != "C03_hash_chromosome_name" or not inputs.get("report"):
+        return False
+    rep = [l for l in inputs["report"] if l.strip()]
+    return len(rep) == 2 and re.match(r"models for chromosome 'c1': [1-9]\d*$", rep[0]) is not None and rep[1] == "models for chromosome '#1': 0"
+
+
 def kf_read_across_cut_two_genes(inputs):
     """known-finding class: scenario C05_read_across_cut_two_genes fails, and everything it reports is ONE extra, identical corrected_reads.bed
     record of the one read (V_000) that lies across the cut between two pieces with different genes"""
